@@ -54,7 +54,7 @@ func compareModelDev(q *gojq.Query, src string, input any, dev refjq.Deviation) 
 	}()
 	m := refjq.NewMachine(ModelBudget)
 	m.Dev = dev
-	mr := m.Run(q, univ.Copy(input), nil)
+	mr := m.Run(q, univ.CopySpare(input), nil)
 	v.Model = mr
 	if mr.Sig != nil && mr.Sig.IsUnsupported() {
 		return Verdict{Class: "not-modelled", Why: mr.Sig.Why, Model: mr}
@@ -71,7 +71,7 @@ func compareModelDev(q *gojq.Query, src string, input any, dev refjq.Deviation) 
 			o.CompErr = err
 			return
 		}
-		o = RunCode(code, univ.Copy(input), DefaultBudget)
+		o = RunCode(code, univ.CopySpare(input), DefaultBudget)
 	}()
 	v.Impl = o
 	if o.Panic != "" {
